@@ -21,6 +21,9 @@ CHECKS = {
  "C02": ("exploration", "an independent reference writer renders random abstract documents with every lexical/structural freedom of ISO 32000-1 7.2-7.5 randomised; lopdf must load exactly the abstract objects, trailer and version; every generated file is cross-checked by the strict reader first",
          "trusted: REF-W (Appendix B of DESIGN.md) and STRICT-R, which validate each other on every case; CANON with the two stated equivalences (null entry = absent, indirect Length = integer)",
          "differential testing against an independent reference writer, driven by proptest (choice-tape style generation)"),
+ "C07": ("exploration", "histories = base + 1..3 update revisions rendered by the reference writer (tables/streams, plain/ObjStm) and every %%EOF-prefix loaded and compared with the 'latest wins' model; and 1..4 chained IncrementalDocument updates on foreign or own base files checked for verbatim prefix, one new section with the right Prev, exactly the edited objects in the tail, unchanged previous view and correct reload",
+         "trusted: REF-W, STRICT-R, CANON (as in C02/C03)",
+         "property-based testing over histories (vec of revisions / vec of edit lists) against a reference model; differential with a reference writer and strict reader"),
 }
 NA = {}
 def main():
